@@ -2,7 +2,13 @@
 
 package art
 
-import "github.com/tikv/client-go/v2/internal/unionstore/arena"
+import (
+	"encoding/hex"
+	"fmt"
+	"strings"
+
+	"github.com/tikv/client-go/v2/internal/unionstore/arena"
+)
 
 // VerifPosition returns the current end of the value log WITHOUT the side effect of Checkpoint()
 // (which remembers the checkpoint it hands out); used by the C08 harness for its own bookkeeping.
@@ -79,6 +85,100 @@ func (v *VerifNode) Children(reverse bool) []int {
 			break
 		}
 		out = append(out, v.idOf(n))
+	}
+	return out
+}
+
+// VerifDump prints the tree canonically: N<kind>(<prefixLen>,<valid in-node prefix bytes>,<in-place leaf key|~>)[<byte>:<child> …]
+// for inner nodes and L(<key>) for leaves (hex, "-" = empty), the format of Model/ArtTree.lean dumpT.
+func (t *ART) VerifDump() string {
+	if t.root.addr.IsNull() {
+		return "N4(0,-,~)[]"
+	}
+	var sb strings.Builder
+	t.verifDump(&sb, t.root)
+	return sb.String()
+}
+
+func verifHex(b []byte) string {
+	if len(b) == 0 {
+		return "-"
+	}
+	return hex.EncodeToString(b)
+}
+
+func (t *ART) verifDump(sb *strings.Builder, an artNode) {
+	a := &t.allocator
+	if an.kind == typeLeaf {
+		sb.WriteString("L(" + verifHex(an.asLeaf(a).GetKey()) + ")")
+		return
+	}
+	nb := an.asNode(a)
+	kind := map[nodeKind]int{typeNode4: 4, typeNode16: 16, typeNode48: 48, typeNode256: 256}[an.kind]
+	inp := "~"
+	if !nb.inplaceLeaf.addr.IsNull() {
+		inp = verifHex(nb.inplaceLeaf.asLeaf(a).GetKey())
+	}
+	fmt.Fprintf(sb, "N%d(%d,%s,%s)[", kind, nb.prefixLen, verifHex(nb.prefix[:min(nb.prefixLen, maxInNodePrefixLen)]), inp)
+	emit := func(c byte, ch artNode) {
+		sb.WriteString(verifHex([]byte{c}) + ":")
+		t.verifDump(sb, ch)
+		sb.WriteString(" ")
+	}
+	switch an.kind {
+	case typeNode4:
+		n := an.asNode4(a)
+		for i := 0; i < int(n.nodeNum); i++ {
+			emit(n.keys[i], n.children[i])
+		}
+	case typeNode16:
+		n := an.asNode16(a)
+		for i := 0; i < int(n.nodeNum); i++ {
+			emit(n.keys[i], n.children[i])
+		}
+	case typeNode48:
+		n := an.asNode48(a)
+		for c := 0; c < 256; c++ {
+			if n.present[c>>n48s]&(1<<(uint(c)%n48m)) != 0 {
+				emit(byte(c), n.children[n.keys[c]])
+			}
+		}
+	case typeNode256:
+		n := an.asNode256(a)
+		for c := 0; c < 256; c++ {
+			if n.present[c>>n48s]&(1<<(uint(c)%n48m)) != 0 {
+				emit(byte(c), n.children[c])
+			}
+		}
+	}
+	sb.WriteString("]")
+}
+
+// VerifSearch is ART.search without the lastTraversedNode cache.
+func (t *ART) VerifSearch(key []byte) bool {
+	addr, _ := t.search(key)
+	return !addr.IsNull()
+}
+
+// VerifKeys walks all leaves (deleted or not) with the iterator's own code from the root.
+func (t *ART) VerifKeys(reverse bool) [][]byte {
+	if t.root.addr.IsNull() {
+		return nil
+	}
+	it := &baseIter{allocator: &t.allocator}
+	it.seekToFirst(t.root, reverse)
+	var out [][]byte
+	for i := 0; i < 1000000; i++ {
+		var n artNode
+		if reverse {
+			n = it.prev()
+		} else {
+			n = it.next()
+		}
+		if n.addr.IsNull() {
+			break
+		}
+		out = append(out, append([]byte{}, n.asLeaf(&t.allocator).GetKey()...))
 	}
 	return out
 }
